@@ -672,6 +672,11 @@ static int fmt_outv (hawk_fmtout_t* fmtout, va_list ap)
 			if (flagc & FLAGC_LENMOD) goto invalid_format;
 			for (n = 0;; fmtptr += fmtchsz)
 			{
+				/* a width or precision beyond the range of int can't be honoured by the
+				 * padding code below or by snprintf(). stop here instead of letting n wrap
+				 * around to a negative value that the float-point case would write back
+				 * as a number longer than the digits it was read from */
+				if (n > (HAWK_TYPE_MAX(int) - (int)(uch - '0')) / 10) goto oops;
 				n = n * 10 + uch - '0';
 				switch (fmtout->fmt_type)
 				{
